@@ -42,16 +42,13 @@ Sign2Ok(r) ==
 VerifyOk(r) ==
   LET P == Params(r.l)
   IN IF ~OidValid(r.oid) THEN r.rc = "BAD_OID"
-     ELSE IF ~PubkeyValid(P, r.Q) THEN r.rc # "OK"          \* rejected; bign.h names ERR_BAD_PUBKEY, 7.1.4 takes Q as valid
+     ELSE IF ~PubkeyValid(P, r.Q) THEN r.rc = "BAD_PUBKEY"        \* bign.h: \expect{ERR_BAD_PUBKEY} the public key is valid
      ELSE IF ~SigInRange(P, r.sig) THEN r.rc = "BAD_SIG"
      ELSE r.lvl = 1 => r.rc = (IF Verify(P, r.oid, r.H, r.sig, r.Q) = "ok" THEN "OK" ELSE "BAD_SIG")
 WrapOk(r) ==
   LET P == Params(r.l)  s == SampleNZ(P, r.tape)
   IN IF Len(r.X) < 16 THEN r.rc = "BAD_INPUT"
-     ELSE IF ~PubkeyValid(P, r.Q) THEN
-            \* coordinates outside the field must be refused; 7.2.3 takes Q as a valid public key, so a recipient key
-            \* that is in the field but off the curve is outside the statement (observation O1 of checks/C02.py)
-            IF Less(PtOf(P, r.Q)[1], P.p) /\ Less(PtOf(P, r.Q)[2], P.p) THEN r.rc \in {"OK", "BAD_PUBKEY"} ELSE r.rc = "BAD_PUBKEY"
+     ELSE IF ~PubkeyValid(P, r.Q) THEN r.rc = "BAD_PUBKEY"        \* bign.h: \expect{ERR_BAD_PUBKEY} the recipient's key is valid
      ELSE IF ~s.ok THEN r.rc = "BAD_RNG"
      ELSE /\ r.rc = "OK" /\ r.used = s.tries * P.no /\ Len(r.token) = P.no + 16 + Len(r.X)
           /\ r.urc = "OK" /\ r.ukey = r.X
